@@ -144,6 +144,37 @@ def register(T, repo):
     lp = c.loop(2)
     lp.shapes['ret'] = lambda E: gml_result(E)
 
+    # C12 label preservation (assertion at the real statement): wherever
+    # the splitter glues the text of one language section to another one
+    # (`A.txt += B.txt`), both sections carry the same language -- the words
+    # of B stay in a part labelled with the language in force at them
+    import ast as _ast
+
+    def ml_stmt_hook(ex, stmt, st, fi):
+        if not (isinstance(stmt, _ast.AugAssign) and
+                isinstance(stmt.op, _ast.Add) and
+                isinstance(stmt.target, _ast.Attribute) and
+                stmt.target.attr == 'txt' and
+                isinstance(stmt.value, _ast.Attribute) and
+                stmt.value.attr == 'txt'):
+            return
+        probe = st.clone()
+        ra = list(ex.ev(stmt.target.value, probe, fi))
+        if len(ra) != 1:
+            raise Unsupported('merge target forks at %d' % stmt.lineno)
+        rb = list(ex.ev(stmt.value.value, ra[0][0], fi))
+        if len(rb) != 1:
+            raise Unsupported('merge source forks at %d' % stmt.lineno)
+        p2, b = rb[0]
+        a = ra[0][1]
+        if not (isinstance(a, Obj) and isinstance(b, Obj) and
+                'lang' in a.fields and 'lang' in b.fields):
+            return
+        ex.prove(p2, 'ml:merge-keeps-language@%d' % stmt.lineno,
+                 sym.seq_eq(lift_str(a.fields['lang']),
+                            lift_str(b.fields['lang'])), stmt.lineno)
+    T.stmt_hooks[U + 'get_txt_pos_ml'] = ml_stmt_hook
+
     def dict_store_hook(ex, st, d, k, v, line, prev=T.dict_store_hook):
         if d.tag in ('ml', 'literal'):
             # ret[lang] = [[txt, pos]]: the stored parts keep the invariant
